@@ -3,8 +3,10 @@
 A tick is one PY_START event or one backward JUMP event in a code object whose file lives under the
 gambatools source directory.  Ticks are a pure function of (code, input, hash seed); wall-clock time is
 never read.  A second, cheaper livelock signature is "one loop iterated N times in a row within one invocation of a library
-function" (per code object: the same backward jump repeated with no other backward jump of that code object and no
-re-entry in between; calls made from the loop body do not reset it): the
+function" (per code object: the same backward jump of a `while` loop repeated with no other while-loop back edge of
+that code object and no re-entry in between; calls made from the loop body and inner `for` loops do not reset it;
+back edges of `for` loops — destination FOR_ITER — never count, because a for-loop is bounded by its iterable and the
+closure sets of a PDA legitimately reach tens of thousands of configurations): the
 library's hang sites are call-free `while` loops whose cost per iteration grows (list.insert(0, ..)), so waiting
 for the full tick budget there would cost quadratic wall time.  When the budget is exceeded SimTimeout (a BaseException, so that the library's and the
 checkers' `except Exception` cannot swallow it) is raised inside the monitored frame.
@@ -13,6 +15,7 @@ import sys
 import os
 
 TOOL = 4
+_FOR_ITER = __import__('dis').opmap['FOR_ITER']
 
 
 class SimTimeout(BaseException):
@@ -29,6 +32,7 @@ class Clock:
         self.budget = None
         self.active = False
         self._cache = {}
+        self._forcache = {}
 
     def _mine(self, code):
         r = self._cache.get(code)
@@ -36,6 +40,17 @@ class Clock:
             fn = code.co_filename
             r = os.path.realpath(fn).startswith(self.src_dir) if fn and not fn.startswith('<') else False
             self._cache[code] = r
+        return r
+
+    def _is_for_backedge(self, code, dst):
+        key = (code, dst)
+        r = self._forcache.get(key)
+        if r is None:
+            try:
+                r = code.co_code[dst] == _FOR_ITER
+            except IndexError:
+                r = False
+            self._forcache[key] = r
         return r
 
     def _on_start(self, code, offset):
@@ -53,13 +68,16 @@ class Clock:
             return sys.monitoring.DISABLE
         if dst < src:
             self.ticks += 1
-            e = self.spin.get(code)
-            if e is not None and e[0] == src:
-                e[1] += 1
-                self.run = e[1]
+            if self._is_for_backedge(code, dst):
+                self.run = 0       # a for-loop is bounded by its iterable: never a livelock signature
             else:
-                self.spin[code] = [src, 1]
-                self.run = 1
+                e = self.spin.get(code)
+                if e is not None and e[0] == src:
+                    e[1] += 1
+                    self.run = e[1]
+                else:
+                    self.spin[code] = [src, 1]
+                    self.run = 1
             if self.budget is not None and (self.ticks > self.budget or (self.tight is not None and self.run > self.tight)):
                 why = 'tick budget exceeded' if self.ticks > self.budget else 'spinning loop: one loop iterated %d times in a row within one invocation' % self.run
                 self.budget = None
